@@ -87,6 +87,27 @@ func (g *Gen) buildQuery(o *Obl, extraAssume string, wantModel bool, dropQuant b
 	return sb.String()
 }
 
+// provable: during generation, is reach => cond a consequence of what has been assumed so far? Used to resolve calls
+// through function values (which closure is it?) before the obligations are generated. A "no" (or a timeout) only means
+// that the general, case-splitting encoding is used instead.
+func (g *Gen) provable(reach, cond string) bool {
+	g.dynQueries++
+	o := &Obl{seq: g.seq + 1, reach: reach, cond: cond, outLen: len(g.out), entrySeq: g.entrySeq, cutSeq: g.cutSeq}
+	q := g.buildQuery(o, "", false, false)
+	f, err := os.CreateTemp("", "govc-dyn-*.smt2")
+	if err != nil {
+		return false
+	}
+	defer os.Remove(f.Name())
+	f.WriteString(q)
+	f.Close()
+	ans, _, dur := runSolver(solvers[0], f.Name(), 5*time.Second)
+	if os.Getenv("GOVC_DYNDEBUG") != "" {
+		fmt.Fprintf(os.Stderr, "dyn query %d: %s %.2fs (%d bytes) %s\n", g.dynQueries, ans, dur, len(q), cond[:min(len(cond), 60)])
+	}
+	return ans == "unsat"
+}
+
 func cvc5Compat(q string) string {
 	// cvc5 does not know z3 options
 	var out []string
